@@ -3,7 +3,8 @@
    the executable cycle check; the fragment/arity check against the regenerated operator
    table; the two refutation witnesses (IR of corpus flows of harness/h_hydro_b_flows). *)
 From Coq Require Import List String NArith Bool Lia ZifyBool ZifyN.
-From HV Require Import HydroB.Model HydroB.GenOps HydroB.PEmit HydroB.PArity HydroB.POut.
+From HV Require Import HydroB.Model HydroB.GenOps HydroB.PEmit HydroB.PArity HydroB.POut HydroB.PAccept HydroB.XPartition HydroB.PAccept2.
+From HV Require Gen.OpsTable Partition.Model.
 Import ListNotations.
 Open Scope string_scope.
 Open Scope N_scope.
@@ -234,6 +235,70 @@ Proof.
     rewrite andb_true_r. apply N.leb_le. apply N.le_0_l.
   - assert (Ei : String.eqb (n_op x) "identity" = false) by (apply String.eqb_neq; exact Hnid).
     rewrite Ei in Htab. rewrite Hout; [exact Htab|]. unfold free_out. rewrite Et, Ei. reflexivity.
+Qed.
+
+(* ------------------------------------------------------------------ accepted, as a theorem
+   about engine Partition's model of dfir_lang's partitioner (Partition/Model.v
+   partition_verdict with its own regenerated operator table Gen/OpsTable.v): uses
+   Partition's C19 theorem acyclic_accepted (Partition/PC19.v) read-only *)
+Lemma resolve_edges : forall sinks ps es0, resolve sinks ps = Some es0 ->
+  forall e, In e es0 -> exists p, In p ps /\ In (p_cyc p, e_src e) sinks /\
+                                   e_dst e = p_dst p /\ e_tick e = p_tick p.
+Proof.
+  induction ps as [|p ps IH]; intros es0 H e He; simpl in H.
+  - inversion H; subst. contradiction.
+  - destruct (assoc_n (p_cyc p) sinks) as [m|] eqn:EA; [|discriminate].
+    destruct (resolve sinks ps) as [es1|] eqn:ER; [|discriminate].
+    inversion H; subst es0. destruct He as [<-|He].
+    + exists p. simpl. split; [left; reflexivity|]. split; [apply assoc_n_In; exact EA|]. split; reflexivity.
+    + destruct (IH _ eq_refl e He) as [q [A B]]. exists q. split; [right; exact A|exact B].
+Qed.
+
+Theorem guarded_accepted_by_partition_model : forall rk f g,
+  guarded rk f = true -> emit_flow GenOps.ops_table rk f = Some g ->
+  Partition.Model.partition_verdict Gen.OpsTable.ops_table (to_pgraph g) = Partition.Model.Accepted.
+Proof.
+  intros rk f g HG H.
+  pose proof (emit_accepted GenOps.ops_table rk table_sane_gen f g HG H) as Hacc.
+  unfold emit_flow in H.
+  destruct (emit_roots GenOps.ops_table rk f st0) as [s|] eqn:ER; [|discriminate].
+  destruct (resolve (s_sinks s) (s_pend s)) as [es0|] eqn:EV; [|discriminate].
+  inversion H; subst g; clear H.
+  assert (B1 : forallb (fun s => forallb (fun m =>
+            chain_agree GenOps.ops_table Gen.OpsTable.ops_table (src_ops s m) []) all_meta) all_src = true)
+    by (vm_compute; reflexivity).
+  assert (B2 : forallb (fun u => forallb (fun m =>
+            chain_agree GenOps.ops_table Gen.OpsTable.ops_table (un_ops u m) ["[]"%string]) all_meta) all_un = true)
+    by (vm_compute; reflexivity).
+  assert (B3 : forallb (fun b => forallb (fun ml => forallb (fun mr =>
+            chain_agree GenOps.ops_table Gen.OpsTable.ops_table (fst (bin_ops b ml mr))
+              [fst (snd (bin_ops b ml mr)); snd (snd (bin_ops b ml mr))]) all_meta) all_meta) all_bin = true)
+    by (vm_compute; reflexivity).
+  assert (B4 : forallb (fun k => chain_agree GenOps.ops_table Gen.OpsTable.ops_table [sink_op k] ["[]"%string]) all_sink = true)
+    by (vm_compute; reflexivity).
+  rewrite forallb_forall in B1, B2, B3, B4.
+  assert (HI : Inv7 Gen.OpsTable.ops_table s).
+  { eapply (emit_roots_inv7 GenOps.ops_table Gen.OpsTable.ops_table rk); [| | | | | | | |exact ER|apply Inv7_0].
+    - intros s0 m. specialize (B1 s0 (all_src_complete s0)). rewrite forallb_forall in B1.
+      apply B1. apply all_meta_complete.
+    - intros u m. specialize (B2 u (all_un_complete u)). rewrite forallb_forall in B2.
+      apply B2. apply all_meta_complete.
+    - intros b ml mr. specialize (B3 b (all_bin_complete b)). rewrite forallb_forall in B3.
+      specialize (B3 ml (all_meta_complete ml)). rewrite forallb_forall in B3.
+      apply B3. apply all_meta_complete.
+    - intros k. apply B4. apply all_sink_complete.
+    - vm_compute; reflexivity.
+    - vm_compute; reflexivity.
+    - intros []; vm_compute; reflexivity.
+    - intros []; vm_compute; reflexivity. }
+  apply bridge_accepted.
+  - exact (i7_nodup _ _ HI).
+  - intros x Hx. exact (proj2 (i7_nodes _ _ HI x Hx)).
+  - intros e He. apply in_app_or in He. destruct He as [He|He].
+    + destruct (resolve_edges _ _ _ EV e He) as [p [Hp [Hs [Hd Ht]]]].
+      split; [exact (i7_sinks _ _ HI _ Hs)|]. rewrite Hd, Ht. exact (i7_pend _ _ HI p Hp).
+    + exact (i7_edges _ _ HI e He).
+  - exact Hacc.
 Qed.
 
 (* ------------------------------------------------------------------ refutation witnesses *)
